@@ -730,7 +730,7 @@ def run(ctx):
         lines.append(sq["p"].tok(sq["n"]))
         if sq["p"].mem >= 1:
             lines += [op_tok(o) for o in sq["ops"]]
-    outs = run_driver(ctx, "C09", "\n".join(lines) + "\n", timeout=1200)
+    outs = run_driver(ctx, "C09", [l_ + "\n" for l_ in lines], timeout=1200)
     nrec = len(lines)
     if outs is None or len(outs) != nrec:
         ctx.broke("correspondence", "drv_C09", "driver returned %s lines for %d records; rc=%s %s" %
